@@ -123,6 +123,8 @@ Definition stmt_pow_log_homogeneous : Prop := forall a z, 0 < a < 1 -> pow_dual_
 
 (* the stored Hessian is symmetric positive definite on the interior *)
 Definition stmt_exp_hess_spd : Prop := forall z, exp_dual_int z -> spd3 (snd (exp_grad_H TOpsR z)).
+Definition stmt_pow_hess_spd : Prop := forall a z, 0 < a < 1 -> pow_dual_int a z ->
+  spd3 (snd (pow_grad_H TOpsR a z)).
 
 (* 3x3 Cholesky: the model's product is the dense product; a factorisation succeeds exactly on
    SPD matrices and the solve returns the solution of H x = b *)
